@@ -1,8 +1,396 @@
 import Grass.Proto
-/- Core `Scope` — stub; replaced by the model (see DESIGN.md §8). -/
+/-
+  Core `Scope` (property C03, part 1): grass's `Scopes` with its `last_variable_index` cache,
+  written function by function from
+
+    crates/compiler/src/evaluate/scope.rs   (Scopes::new :28, new_closure :38, find_var :69,
+                                             len :87, enter_new_scope :91, exit_scope :106,
+                                             insert_var :120, insert_var_last :130, get_var :139)
+    crates/compiler/src/evaluate/env.rs     (Environment::new_closure :46, for_import :58,
+                                             insert_var :341, at_root :388)
+    crates/compiler/src/evaluate/visitor.rs (with_environment :1616, with_scope :1685,
+                                             visit_mixin_decl :1785, visit_function_decl :1265,
+                                             visit_include_stmt :1728 (content block closure :1755),
+                                             run_user_defined_callable :2233, import :967)
+
+  Representation.
+  * A frame (`Arc<RefCell<BTreeMap<Identifier, Value>>>`) lives in a heap (`List Frame`, frame id =
+    position) because frames are shared by reference between environments: `new_closure` copies the
+    *vector of Arcs*, not the maps.  A frame is an association list, newest binding first
+    (`BTreeMap::insert` replaces; lookup finds the newest binding).  Nothing ever removes a key
+    (the only removal in grass, `Environment::import_forwards` env.rs:196, belongs to the module
+    system, C12, and resets the cache itself).
+  * `Scopes.vars` is the `variables` vector with the INNERMOST frame FIRST (the Rust `Vec` has it
+    last): `push`/`pop` are cons/tail, and the Rust index `i` denotes the element that has exactly
+    `i` elements after it (`frameAt`).  `len` is the separate `Arc<Cell<usize>>` counter and
+    `cache` is `last_variable_index`.
+  * `Cfg` carries the two as-found switches of defect D3 (tree 8539e4d): `closureKeepsCache`
+    (`new_closure` copied `last_variable_index`) and `restoreKeepsCache` (`with_environment` did
+    not reset it after swapping the old environment back).  The code as it stands is `Cfg.now`.
+
+  The cache-free specification (`SWorld`, `stepSpec`) is at the end; the refinement theorem
+  `C03_lookup_cached_eq_spec` is in GrassProofs/C03.lean.
+-/
 namespace Grass.Scope
 
+abbrev Name := Nat
+abbrev Val := Int
+abbrev Frame := List (Name × Val)
+
+def Frame.get? : Frame → Name → Option Val
+  | [], _ => none
+  | (m, v) :: r, n => if m == n then some v else Frame.get? r n
+
+def Frame.has (f : Frame) (n : Name) : Bool := (f.get? n).isSome
+
+abbrev Heap := List Frame
+
+def getAt (h : Heap) (fid : Nat) (n : Name) : Option Val :=
+  match h[fid]? with
+  | some f => f.get? n
+  | none => none
+
+def hasAt (h : Heap) (fid : Nat) (n : Name) : Bool := (getAt h fid n).isSome
+
+/-- `frame.borrow_mut().insert(name, v)` on frame `fid`. -/
+def putAt (h : Heap) (fid : Nat) (n : Name) (v : Val) : Heap :=
+  match h[fid]? with
+  | some f => h.set fid ((n, v) :: f)
+  | none => h
+
+structure Scopes where
+  vars : List Nat
+  len : Nat
+  cache : Option (Name × Nat)
+deriving Repr, DecidableEq
+
+/-- `variables[i]` of the Rust vector (innermost frame is first in `vars`). -/
+def frameAt : List Nat → Nat → Option Nat
+  | [], _ => none
+  | f :: fs, i => if i = fs.length then some f else frameAt fs i
+
+/-- `for (idx, scope) in variables.iter().enumerate().rev()`: first hit from the innermost frame. -/
+def find (h : Heap) : List Nat → Name → Option Nat
+  | [], _ => none
+  | f :: fs, n => if hasAt h f n then some fs.length else find h fs n
+
+structure Cfg where
+  closureKeepsCache : Bool
+  restoreKeepsCache : Bool
+deriving Repr, DecidableEq
+
+def Cfg.now : Cfg := ⟨false, false⟩
+/-- tree 8539e4d, first half of D3: `new_closure` copies `last_variable_index`. -/
+def Cfg.asFoundClosure : Cfg := ⟨true, false⟩
+/-- tree 8539e4d, second half of D3: `with_environment` restores the old environment, cache and all. -/
+def Cfg.asFoundRestore : Cfg := ⟨false, true⟩
+
+/-- scope.rs:38 `Scopes::new_closure` (fresh vector of the same Arcs, fresh `len` cell). -/
+def Scopes.newClosure (c : Cfg) (s : Scopes) : Scopes :=
+  { vars := s.vars, len := s.len, cache := if c.closureKeepsCache then s.cache else none }
+
+/-- scope.rs:69 `find_var`. -/
+def findVar (h : Heap) (s : Scopes) (n : Name) : Option Nat × Scopes :=
+  let scan : Option Nat × Scopes :=
+    match find h s.vars n with
+    | some i => (some i, { s with cache := some (n, i) })
+    | none => (none, s)
+  match s.cache with
+  | some (m, i) => if m == n then (some i, s) else scan
+  | none => scan
+
+/-- scope.rs:91 `enter_new_scope`: the cache is left alone. -/
+def enter (h : Heap) (s : Scopes) : Heap × Scopes :=
+  (h ++ [[]], { s with vars := h.length :: s.vars, len := s.len + 1 })
+
+/-- scope.rs:106 `exit_scope`. -/
+def exit (s : Scopes) : Scopes :=
+  { vars := s.vars.tail, len := s.len - 1, cache := none }
+
+/-- scope.rs:120 `insert_var(idx, …)`; `none` = index out of bounds (a Rust panic). -/
+def insertVar (h : Heap) (s : Scopes) (idx : Nat) (n : Name) (v : Val) : Option Heap :=
+  match frameAt s.vars idx with
+  | some fid => some (putAt h fid n v)
+  | none => none
+
+/-- scope.rs:130 `insert_var_last`. -/
+def insertVarLast (h : Heap) (s : Scopes) (n : Name) (v : Val) : Option (Heap × Scopes) :=
+  if s.len = 0 then none else
+  let last := s.len - 1
+  let s' := { s with cache := some (n, last) }
+  match insertVar h s' last n v with
+  | some h' => some (h', s')
+  | none => none
+
+inductive Out where
+  | none | val (v : Val) | undefined | panic | rejected
+deriving Repr, DecidableEq
+
+/-- scope.rs:139 `get_var`; the cached arm indexes `variables[idx][&name]` and panics if absent. -/
+def getVar (h : Heap) (s : Scopes) (n : Name) : Out × Scopes :=
+  let scan : Out × Scopes :=
+    match find h s.vars n with
+    | some i =>
+      match frameAt s.vars i with
+      | some fid =>
+        match getAt h fid n with
+        | some v => (.val v, { s with cache := some (n, i) })
+        | none => (.panic, s)
+      | none => (.panic, s)
+    | none => (.undefined, s)
+  match s.cache with
+  | some (m, i) =>
+    if m == n then
+      match frameAt s.vars i with
+      | some fid =>
+        match getAt h fid n with
+        | some v => (.val v, s)
+        | none => (.panic, s)
+      | none => (.panic, s)
+    else scan
+  | none => scan
+
+/-- env.rs:341 `Environment::insert_var` without a namespace and without global modules. -/
+def envInsertVar (h : Heap) (s : Scopes) (n : Name) (v : Val) (isGlobal semi : Bool) :
+    Option (Heap × Scopes) :=
+  if isGlobal || s.len == 1 then
+    match insertVar h s 0 n v with
+    | some h' => some (h', s)
+    | none => none
+  else
+    let r := findVar h s n
+    let s1 := r.2
+    let index0 := match r.1 with | some i => i | none => s1.len - 1
+    let index := if !semi && index0 == 0 then s1.len - 1 else index0
+    let s2 := { s1 with cache := some (n, index) }
+    match insertVar h s2 index n v with
+    | some h' => some (h', s2)
+    | none => none
+
+/-- The evaluator's state as far as variables are concerned. -/
+structure World where
+  heap : Heap
+  cur : Scopes                 -- `visitor.env.scopes`
+  saved : List Scopes          -- the `old_env`s of the active `with_environment` calls
+  closures : List Scopes       -- environments stored in mixins, functions and content blocks
+deriving Repr, DecidableEq
+
+def World.init : World :=
+  { heap := [[]], cur := { vars := [0], len := 1, cache := none }, saved := [], closures := [] }
+
+inductive Op where
+  | enter                                   -- with_scope / @if / @each / @for: enter_new_scope
+  | exit                                    -- … exit_scope
+  | insertLast (n : Name) (v : Val)         -- loop variables and bound arguments
+  | assign (n : Name) (v : Val) (semi : Bool)   -- `$n: v` (flag = in_semi_global_scope)
+  | assignGlobal (n : Name) (v : Val)       -- `$n: v !global`
+  | lookup (n : Name)                       -- `$n` in an expression
+  | closure                                 -- @mixin / @function / content block: env.new_closure()
+  | call (k : Nat)                          -- with_environment(closures[k].new_closure()) begins
+  | imp                                     -- with_environment(env.for_import()) begins
+  | ret                                     -- with_environment ends
+deriving Repr, DecidableEq
+
+def step (c : Cfg) (w : World) : Op → World × Out
+  | .enter =>
+    let (h, s) := enter w.heap w.cur
+    ({ w with heap := h, cur := s }, .none)
+  | .exit =>
+    -- never issued by grass on a one-frame stack (enter/exit are paired): rejected, not modelled
+    if w.cur.len ≤ 1 then (w, .rejected) else ({ w with cur := exit w.cur }, .none)
+  | .insertLast n v =>
+    match insertVarLast w.heap w.cur n v with
+    | some (h, s) => ({ w with heap := h, cur := s }, .none)
+    | none => (w, .panic)
+  | .assign n v semi =>
+    match envInsertVar w.heap w.cur n v false semi with
+    | some (h, s) => ({ w with heap := h, cur := s }, .none)
+    | none => (w, .panic)
+  | .assignGlobal n v =>
+    match envInsertVar w.heap w.cur n v true false with
+    | some (h, s) => ({ w with heap := h, cur := s }, .none)
+    | none => (w, .panic)
+  | .lookup n =>
+    let (o, s) := getVar w.heap w.cur n
+    ({ w with cur := s }, o)
+  | .closure =>
+    ({ w with closures := w.closures ++ [w.cur.newClosure c] }, .none)
+  | .call k =>
+    match w.closures[k]? with
+    | some cl => ({ w with cur := cl.newClosure c, saved := w.cur :: w.saved }, .none)
+    | none => (w, .rejected)
+  | .imp =>
+    ({ w with cur := w.cur.newClosure c, saved := w.cur :: w.saved }, .none)
+  | .ret =>
+    match w.saved with
+    | old :: rest =>
+      ({ w with cur := if c.restoreKeepsCache then old else { old with cache := none },
+                saved := rest }, .none)
+    | [] => (w, .rejected)
+
+def run (c : Cfg) : World → List Op → World × List Out
+  | w, [] => (w, [])
+  | w, op :: ops =>
+    let (w1, o) := step c w op
+    let (w2, os) := run c w1 ops
+    (w2, o :: os)
+
+/-! ### The cache-free specification
+
+Sass scoping rules written directly (no `len` counter, no cache): a lookup finds the innermost
+frame that declares the name; an assignment goes to the global frame when flagged `!global` or at
+the root, otherwise to the innermost frame that already declares the name — except that a global
+variable is only assigned from a local scope when that scope is semi-global (control flow at the
+top level) — otherwise it declares the variable in the current frame. -/
+
+structure SWorld where
+  heap : Heap
+  cur : List Nat
+  saved : List (List Nat)
+  closures : List (List Nat)
+deriving Repr, DecidableEq
+
+def SWorld.init : SWorld := { heap := [[]], cur := [0], saved := [], closures := [] }
+
+def lookupSpec (h : Heap) : List Nat → Name → Out
+  | [], _ => .undefined
+  | f :: fs, n =>
+    match getAt h f n with
+    | some v => .val v
+    | none => lookupSpec h fs n
+
+/-- The frame an assignment writes to; `none` only for an empty stack. -/
+def targetSpec (h : Heap) (vars : List Nat) (n : Name) (isGlobal semi : Bool) : Option Nat :=
+  let top := vars.head?
+  let glob := vars.getLast?
+  if isGlobal || vars.length == 1 then glob
+  else
+    match find h vars n with
+    | none => top
+    | some i => if i == 0 then (if semi then glob else top) else frameAt vars i
+
+def stepSpec (w : SWorld) : Op → SWorld × Out
+  | .enter => ({ w with heap := w.heap ++ [[]], cur := w.heap.length :: w.cur }, .none)
+  | .exit => if w.cur.length ≤ 1 then (w, .rejected) else ({ w with cur := w.cur.tail }, .none)
+  | .insertLast n v =>
+    match w.cur.head? with
+    | some fid => ({ w with heap := putAt w.heap fid n v }, .none)
+    | none => (w, .panic)
+  | .assign n v semi =>
+    match targetSpec w.heap w.cur n false semi with
+    | some fid => ({ w with heap := putAt w.heap fid n v }, .none)
+    | none => (w, .panic)
+  | .assignGlobal n v =>
+    match targetSpec w.heap w.cur n true false with
+    | some fid => ({ w with heap := putAt w.heap fid n v }, .none)
+    | none => (w, .panic)
+  | .lookup n => (w, lookupSpec w.heap w.cur n)
+  | .closure => ({ w with closures := w.closures ++ [w.cur] }, .none)
+  | .call k =>
+    match w.closures[k]? with
+    | some cl => ({ w with cur := cl, saved := w.cur :: w.saved }, .none)
+    | none => (w, .rejected)
+  | .imp => ({ w with saved := w.cur :: w.saved }, .none)
+  | .ret =>
+    match w.saved with
+    | old :: rest => ({ w with cur := old, saved := rest }, .none)
+    | [] => (w, .rejected)
+
+def runSpec : SWorld → List Op → SWorld × List Out
+  | w, [] => (w, [])
+  | w, op :: ops =>
+    let (w1, o) := stepSpec w op
+    let (w2, os) := runSpec w1 ops
+    (w2, o :: os)
+
+/-- Forgetting `len` and the cache. -/
+def erase (w : World) : SWorld :=
+  { heap := w.heap, cur := w.cur.vars, saved := w.saved.map (·.vars), closures := w.closures.map (·.vars) }
+
+/-! ### The invariant, as a decidable predicate (also evaluated by the driver after every step) -/
+
+def Scopes.wfB (h : Heap) (s : Scopes) : Bool :=
+  s.len == s.vars.length && !s.vars.isEmpty && s.vars.all (· < h.length) && decide s.vars.Nodup
+
+def Scopes.cacheOkB (h : Heap) (s : Scopes) : Bool :=
+  match s.cache with
+  | none => true
+  | some (m, i) => find h s.vars m == some i
+
+def invB (w : World) : Bool :=
+  w.cur.wfB w.heap && w.cur.cacheOkB w.heap && w.saved.all (·.wfB w.heap) &&
+  w.closures.all (fun s => s.wfB w.heap && s.cache.isNone)
+
+/-! ### driver -/
+open Grass.Proto
+
+def parseNV (s : String) : Option (Name × Val) :=
+  match s.splitOn ":" with
+  | [a, b] => do let n ← a.toNat?; let v ← b.toInt?; some (n, v)
+  | _ => none
+
+/-- `E` enter, `X` exit, `Ln:v` insertLast, `An:v` assign, `Sn:v` assign in a semi-global scope,
+    `Gn:v` assign !global, `Rn` lookup, `C` closure, `Kk` call, `I` import, `T` return. -/
+def parseOp (t : String) : Option Op :=
+  let rest := (t.drop 1).toString
+  match t.toList.head? with
+  | some 'E' => if rest == "" then some .enter else none
+  | some 'X' => if rest == "" then some .exit else none
+  | some 'C' => if rest == "" then some .closure else none
+  | some 'I' => if rest == "" then some .imp else none
+  | some 'T' => if rest == "" then some .ret else none
+  | some 'L' => (parseNV rest).map fun (n, v) => .insertLast n v
+  | some 'A' => (parseNV rest).map fun (n, v) => .assign n v false
+  | some 'S' => (parseNV rest).map fun (n, v) => .assign n v true
+  | some 'G' => (parseNV rest).map fun (n, v) => .assignGlobal n v
+  | some 'R' => rest.toNat?.map .lookup
+  | some 'K' => rest.toNat?.map .call
+  | _ => none
+
+def outStr : Out → String
+  | .none => "-" | .val v => s!"v{v}" | .undefined => "u" | .panic => "p" | .rejected => "r"
+
+def outsStr (os : List Out) : String := if os.isEmpty then "-" else ",".intercalate (os.map outStr)
+
+/-- Does the invariant hold after every prefix? -/
+def invAlong (c : Cfg) : World → List Op → Bool
+  | w, [] => invB w
+  | w, op :: ops => invB w && invAlong c (step c w op).1 ops
+
+/-- P̂ for one operation sequence and one observed list of outputs: the observation equals what the
+    cache-free specification produces.  Returns the first differing position. -/
+def checkObserved (ops : List Op) (obs : List Out) : Option Nat :=
+  let spec := (runSpec .init ops).2
+  if spec.length != obs.length then some (min spec.length obs.length) else
+  (List.range spec.length).find? fun i => spec[i]? != obs[i]?
+
+def parseOut (t : String) : Option Out :=
+  if t == "-" then some .none else if t == "u" then some .undefined else if t == "p" then some .panic
+  else if t == "r" then some .rejected
+  else if t.startsWith "v" then (t.drop 1).toString.toInt?.map .val else none
+
 def handle : List String → String
+  | "run" :: ts =>
+    match ts.mapM parseOp with
+    | some ops =>
+      let now := (run .now .init ops).2
+      let spec := (runSpec .init ops).2
+      let a := (run .asFoundClosure .init ops).2
+      let b := (run .asFoundRestore .init ops).2
+      s!"ok {outsStr now} | {outsStr spec} | {outsStr a} | {outsStr b} | inv={boolStr (invAlong .now .init ops)}"
+    | none => "bad-op"
+  | "check" :: n :: rest =>
+    -- check <n> <op_1> … <op_n> <out_1> … <out_n>
+    match n.toNat? with
+    | some n =>
+      match (rest.take n).mapM parseOp, (rest.drop n).mapM parseOut with
+      | some ops, some obs =>
+        if ops.length != n then "bad-op" else
+        match checkObserved ops obs with
+        | none => "ok holds"
+        | some i => s!"ok fails {i}"
+      | _, _ => "bad-op"
+    | none => "bad-op"
   | _ => "bad-op"
 
 end Grass.Scope
